@@ -166,7 +166,7 @@ def gen_case(rng, backend, ties: bool, dfs=None, fixed=None):
     if rng.random() < 0.25:
         # threshold given as a match weight (integer or fractional); the model uses the exact value
         # of the implementation's own conversion; often one edge sits exactly on it
-        thr_weight = rng.choice([-2, -1, 0, 0, 1, 2, 3, 0.5, -0.75, 1.25, 2.5])
+        thr_weight = rng.choice(WEIGHT_GRID)
         thr = weight_to_prob(thr_weight)
         if edges and rng.random() < 0.6:
             x = rng.randrange(len(edges))
@@ -323,6 +323,33 @@ def order_mode(sql):
     if len(modes) != 1:
         return "unknown:the two windows use different ORDER BY clauses"
     return modes.pop()
+
+
+WEIGHT_GRID = [-2, -1, 0, 0, 1, 2, 3, 0.5, -0.75, 1.25, 2.5]
+
+
+def weight_conversion_obligation(ctx):
+    """Independent of splink: the probability the implementation derives from a match-weight threshold
+    must be 2^w / (1 + 2^w) to within 2 ulp (three float roundings: 2**w, 1+bf, the quotient; the worst
+    case on the grid is 1.13 ulp at w = 0.5).  Reference computed with 60-digit decimals, compared as
+    exact rationals."""
+    import math
+    from decimal import Decimal, getcontext
+    getcontext().prec = 60
+    worst, bad = Fraction(0), []
+    for w in sorted(set(WEIGHT_GRID) | {-7.3, 11, 0.1, -0.1}):
+        got = fr(weight_to_prob(w))
+        bf = Fraction(Decimal(2) ** Decimal(repr(w)))
+        ref = bf / (1 + bf)
+        err = abs(got - ref) / Fraction(math.ulp(float(ref)))
+        worst = max(worst, err)
+        if err > 2:
+            bad.append((w, float(got), float(ref)))
+    ctx.cov["weight_threshold_conversion_worst_error_ulp"] = float(worst)
+    ok = ctx.obligation("match-weight thresholds convert to 2^w/(1+2^w) within 2 ulp (independent reference)", not bad, str(bad))
+    if not ok:
+        ctx.violation("threshold_match_weight is converted to a probability that is not 2^w/(1+2^w): " + str(bad[:3]),
+                      {"broken": "weight conversion", "cases": bad}, {"kind": "weight_conversion"}, found_input=False)
 
 
 def threshold_kwargs(case):
@@ -791,6 +818,9 @@ def correspondence(ctx: Ctx):
                 c["threads"] = ctx.rng.randint(1, 16)
             one(c)
     ctx.cov["steps_not_enumerated"] = skipped_steps
+    ctx.obligation(f"every captured step was small enough for the allowed-step enumeration ({skipped_steps} skipped, limit {ENUM_LIMIT})",
+                   skipped_steps == 0)
+    weight_conversion_obligation(ctx)
     shapes = sorted({m for case, _, _, _ in metas for m in case.get("_order_modes", [])})
     ctx.cov["order_by_of_rank_windows"] = shapes
     ok_shape = bool(shapes) and all(m in ("prob", "tiebreak") for m in shapes) and len(shapes) == 1
